@@ -152,13 +152,17 @@ CLAIMS = {
              "the transfer's code; sole exemption the documented SNR read, C11_exemption_is_snr_read, after which nothing is written either), "
              "C11_no_delivery_after_failed_transfer (one handler invocation, LoRa/FSK/OOK, any flags and packet: the receive callback is never "
              "invoked after any of its transfers failed), C11_fsk_header_is_transactional and C11_lora_read_is_transactional (a failure while "
-             "the per-packet state is being established leaves the handle exactly as it was), C11_cache_after_failures (C01). "
+             "the per-packet state is being established leaves the handle exactly as it was), C11_failed_call_keeps_handle (every public function "
+             "that is not a packet operation, any arguments and handle: if any transfer failed the handle is exactly what it was, so the driver's "
+             "view of header mode, packet format, CRC type, hop list never runs ahead of an unwritten chip - proving it exposed fix fe89473), "
+             "C11_failed_call_keeps_configuration (the FSK/OOK transmit calls included: at most the per-packet fields differ), "
+             "C11_cache_after_failures (C01). "
              "'Subsequent packets are received and transmitted correctly': for FSK/OOK reception and transmission this is part of C03_session and "
              "C04_session, whose environments let any transfer fail (reception: except the handler's own recovery write) - the invariants from "
              "which the next bytes and the next packet are handled correctly survive every failure; for LoRa the handlers are stateless between "
              "packets apart from the restored length. In addition scripts fail one or two transfers at each index of the packet paths and of "
-             "each API call and then run fault-free traffic against the delivery monitors; two defects found this way were repaired "
-             "(see known_findings.json). Not covered by a theorem: two consecutive failures of which the second is the recovery write.",
+             "each API call and then run fault-free traffic against the delivery monitors (and compare the handle before and after each failed "
+             "call); the defects found this way and by the proofs were repaired (see known_findings.json). Not covered by a theorem: two consecutive failures of which the second is the recovery write.",
         technique="Lean 4 structural theorems over all answers (values and failures) of chip and bus + fault injection at each transfer index with recovery traffic",
         design="7 C11"),
     'C12': dict(
